@@ -70,4 +70,10 @@ def main():
         c03_wrapper.run(R)
     except ImportError:
         pass
+    # construction (component built through NewConsensusController: index -> key table, n, quorum): props/c05_ctor.py
+    try:
+        import c05_ctor
+        c05_ctor.run(R)
+    except ImportError:
+        pass
     R.finish()
